@@ -11,6 +11,7 @@ from ..common import bitsutil as bu
 from ..common.bitsutil import Bits, mk_bits
 
 PID = 'C04'
+DRIVERS = ['bits']
 MODULE = 'PymtlVerif.Props.C04'
 THEOREMS = ['PV.C04.' + t for t in [
   'tables', 'add_spec', 'sub_spec', 'mul_spec', 'div_spec', 'bitwise_spec', 'invert_spec', 'invert_testBit',
